@@ -50,3 +50,9 @@ Print Assumptions C11_acquire.
 Print Assumptions C11_send_command.
 Print Assumptions C11_hidden_inputs.
 Print Assumptions C11_secret_absent.
+
+(* channel/write.go as translated: Channel.Write logs one message whose only argument is `lm`: the literal `redacted` when the write is flagged *)
+From Scrapli Require Import WriteSrc.
+Theorem C11_write_is_source : write_src_ok = true.
+Proof. exact write_is_source. Qed.
+Print Assumptions C11_write_is_source.
